@@ -779,3 +779,13 @@ C('ctl-isnot-none', ['C04'], 'core.py',
   "    if err is not None:\n        raise err",
   "    if not (err is None):\n        raise err",
   "equivalent identity test -- tolerated only if recognised")
+
+# --------------------------------------------------------------------------- reverted repairs (round 4)
+M('c05-revert-memo-reset', ['C05'], 'core.py',
+  "        self._scope = scope\n        # a copy of an error that was already rendered must not keep the old text\n        self._finalized_str = None\n",
+  "        self._scope = scope\n",
+  "revert of the repair: _finalize keeps the memoised message of the copied error")
+M('c05-revert-path-rewrap', ['C05'], 'core.py',
+  "        path = self.path if isinstance(self.path, Path) else Path(self.path)\n        path_part = path.values()[self.part_idx]",
+  "        path_part = Path(self.path).values()[self.part_idx]",
+  "revert of the repair: the access error re-wraps its S/A-rooted path")
